@@ -25,6 +25,13 @@ def policy_input(ctx: Ctx) -> Policy:
     return Policy(count_assert="input", name="input", discharge=o.discharge, nonzero=o.nonzero)
 
 
+def policy_views(ctx: Ctx) -> Policy:
+    """Stateful-layer policy: as policy_input, but implicit raisers count only on operands derived from received text."""
+    policy_input(ctx)
+    o: Oracles = ctx._oracles  # type: ignore[attr-defined]
+    return Policy(count_assert="input", name="views", discharge=o.discharge, nonzero=o.nonzero, implicit_only_tainted=True, count_dt_edge=False)
+
+
 def origin_key(o: Origin) -> str:
     return f"{o.func.qualname}:{norm(o.node)[:100]}"
 
@@ -45,6 +52,7 @@ def closure_rule(
     allow: list[str],
     what: str,
     ignore: Iterable[str] = (),
+    cut: Iterable[FuncInfo] = (),
 ) -> None:
     """may_raise(entry) ⊆ allow↓ for every entry; one finding per distinct root source."""
     seen: dict[str, list[str]] = {}
@@ -57,12 +65,19 @@ def closure_rule(
         if not bad:
             rr.ok({"entry": f.short, "may_raise": sorted(short_cls(c) for c in esc), "admitted": [short_cls(a) for a in allow]})
             continue
+        cutset = set(cut)
+        n_bad = 0
         for c in bad:
             for o, path in ea.roots(f, c):
+                if cutset and any(p in cutset for p in path):
+                    continue  # decided by that function's own rule
+                n_bad += 1
                 k = f"{short_cls(c)}@{origin_key(o)}"
                 seen.setdefault(k, []).append(f.short)
                 if k not in details:
                     details[k] = (o, c, [p.short for p in path])
+        if not n_bad:
+            rr.ok({"entry": f.short, "may_raise_outside_cut": []})
     for k, ents in seen.items():
         o, c, path = details[k]
         rr.fail(
